@@ -31,6 +31,11 @@ Clauses(R) ==
                       /\ \A i \in 2..Len(a) : a[i] = b[i]
                       /\ (a[1] = b[1] \/ SFlip(a[1]) = b[1])>>,
     <<"C17.closed", \A j \in 1..Len(R.members) : SeqToSet(R.members[j].vars) = vs>>,
+    <<"C17.instance", \A j \in 1..Len(R.shared) :      \* the same answers from a long-lived index
+                      /\ R.shared[j].exc = ""
+                      /\ Len(R.shared[j].vars) >= 1 /\ R.shared[j].vars[1] = R.shared[j].m
+                      /\ SeqToSet(R.shared[j].vars) = vs
+                      /\ Len(R.shared[j].vars) = Cardinality(vs)>>,
     <<"C17.sameWe", \A i \in 1..Len(R.created) : \A j \in 1..Len(R.created) :
                       /\ R.created[i].exc = ""
                       /\ SeqToSet(R.created[i].prefixes) = SeqToSet(R.created[j].prefixes)>>
